@@ -6,6 +6,11 @@ OUTSIDE = ["ds/es/ss selectors (a ucontext does not carry them)", "crash thread 
 ASSUMPTIONS = ["same stubs as C04/C06 (copy, get_stack_info, ThreadInfo::create, ghost-logging serializer and set_value_at)", "exception stream read back from a fresh 168-byte buffer"]
 TL = {"XMM_SAVE_AREA32": 100, "MINIDUMP_EXCEPTION": 20, "alloc_from_array": 20}
 HARNESSES = [
+    H("c04_registers::c05_exception_crash_ctx", desc="exception stream, crash context supplied, context location known", loops={"MINIDUMP_EXCEPTION": 20}, timeout=900),
+    H("c04_registers::c05_exception_crash_ctx_addr", desc="exception stream, crash context + resolved address", loops={"MINIDUMP_EXCEPTION": 20}, timeout=900),
+    H("c04_registers::c05_exception_crash_no_ctx", desc="exception stream, crash context, blamed thread not captured", loops={"MINIDUMP_EXCEPTION": 20}, timeout=900),
+    H("c04_registers::c05_exception_requested_addr", desc="exception stream, no crash context: DUMP_REQUESTED with the thread's instruction pointer", loops={"MINIDUMP_EXCEPTION": 20}, timeout=900, expect_unsat_covers=('negative signal code (sent from user space)',)),
+    H("c04_registers::c05_exception_requested_none", desc="exception stream, no crash context, nothing resolved", loops={"MINIDUMP_EXCEPTION": 20}, timeout=900, expect_unsat_covers=('negative signal code (sent from user space)',)),
     H("c04_registers::c05_ucontext_to_context", desc="ucontext/fpregset -> CONTEXT_AMD64, all values symbolic", loops={"XMM_SAVE_AREA32": 100}),
     H("c06_stacks::c04_tl_1thread_crash", desc="crash context blames the only thread: record uses the supplied context; exception record code/flags/address/context (12-14 min)", timeout=2400, loops=TL, est_gb=14, mem_gb=30, tier="thorough"),
     H("c06_stacks::c04_tl_1thread_requested", desc="no crash context: DUMP_REQUESTED, address == thread's rip, its captured context", timeout=2400, loops=TL, est_gb=14, mem_gb=30, expect_unsat_covers=("window clipped at the mapping start", "window clipped at the mapping end", "ip outside every mapping")),
